@@ -75,7 +75,8 @@ def check(model, R, tier):
             R.ob('C15.FAN', ff.qualname, 'rank %d -> %s' % (rank, [o.kind for o in outs]), all(o.kind == 'raise' for o in outs) and bool(outs), 'fan in/out are undefined for tensors with fewer than 2 dimensions: must raise', ff.loc)
         else:
             fi, fo = fans(tp, rank)
-            ok = len(outs) == 1 and outs[0].kind == 'return' and isinstance(outs[0].value, (tuple, list)) and len(outs[0].value) == 2 and eqv(outs[0].value[0], fi) and eqv(outs[0].value[1], fo)
+            # every path (a memo table, defensive type tests .. may fork the evaluation) returns the same documented pair
+            ok = bool(outs) and all(o.kind == 'return' and isinstance(o.value, (tuple, list)) and len(o.value) == 2 and eqv(o.value[0], fi) and eqv(o.value[1], fo) for o in outs)
             R.ob('C15.FAN', ff.qualname, 'rank %d -> %s' % (rank, [canon(v) for v in outs[0].value] if outs and isinstance(outs[0].value, (tuple, list)) else outs), ok,
                  'fan_in = shape[1]*prod(shape[2:]) = %s, fan_out = shape[0]*prod(shape[2:]) = %s' % (fi.canon(), fo.canon()), ff.loc)
     # ---------------------------------------------------------------- GAIN
@@ -197,7 +198,11 @@ def check(model, R, tier):
         rec = []
         outs = PE(model, atoms=tensor_atoms(tp, 2), call_hook=sampler_hook(rec)).paths(f, {tp: P.atom(tp)})
         rets = [o for o in outs if o.kind == 'return']
-        ok = bool(rets) and all(eqv(o.value, P.atom(tp)) and not o.stores for o in rets)
+        def effect(k):
+            # a write into a private module-level table (a memo of pure shape computations) is not an effect on a tensor
+            base = k.split('[', 1)[0]
+            return not ('.' not in base and base.startswith('_') and '[' in k)
+        ok = bool(rets) and all(eqv(o.value, P.atom(tp)) and not [k for k, v, st in o.stores if effect(k)] for o in rets)
         R.ob('C15.OBJECT', f.qualname, 'delegates to a filler on its own argument and returns it', ok, 'derived initialisers must fill (and return) the tensor they were given, writing nothing else', f.loc)
     return dict(
         explanation='The distribution of the draws is NumPy\'s; decided here is which scale the repository hands to which sampler parameter and what it does to the tensor object. The initialisers are partially evaluated on a symbolic tensor '
